@@ -332,11 +332,15 @@ class Stream(meta(Iterable, metaclass=StreamMeta)):
 
     """
     def skipper(data):
-      try:
-        for _ in xrange(int(round(n))):
-          next(data)
-      except StopIteration:
-        return
+      if isinf(n): # Everything (+inf) or nothing (-inf) is thrown away
+        if n > 0:
+          return
+      else:
+        try:
+          for _ in xrange(int(round(n))):
+            next(data)
+        except StopIteration:
+          return
       for el in data:
         yield el
 
@@ -347,7 +351,9 @@ class Stream(meta(Iterable, metaclass=StreamMeta)):
     """
     Enforces the Stream to finish after ``n`` items.
     """
-    self._data = it.islice(self._data, max(int(round(n)), 0))
+    if not (isinf(n) and n > 0): # limit(inf) is "no limit at all"
+      self._data = it.islice(self._data,
+                             0 if isinf(n) else max(int(round(n)), 0))
     return self
 
   def __getattr__(self, name):
